@@ -20,10 +20,25 @@ from vlib.symx import engine, deep_eq, z3_and, z3_not, z3_or, z3_implies, SInt
 FAULTS = ['timeout', 'disconnected', 'reset', 'conn', 'client', 'refused', 'warmup', 'warmup_batch']
 
 
+class Deadlock(Exception):
+    '''The call is suspended and nothing can ever wake it (every source of events is a stub).'''
+
+
 def _run(coro):
     loop = asyncio.new_event_loop()
     try:
-        return loop.run_until_complete(coro)
+        task = loop.create_task(coro)
+        for _ in range(100000):
+            loop.call_soon(loop.stop)
+            loop.run_forever()
+            if task.done():
+                return task.result()
+            if not loop._ready and not loop._scheduled:
+                task.cancel()
+                loop.call_soon(loop.stop)
+                loop.run_forever()
+                raise Deadlock()
+        raise RuntimeError('event loop does not settle')
     finally:
         loop.close()
 
@@ -158,6 +173,10 @@ def scenario(shape):
                 return _Resp('bin', chunks=[b[:2], b[2:]])
             return _Ctx(make)
     d.session = Session()
+    if shape.get('permits'):
+        # the work-queue semaphore (10 permits in the code) scaled down so that a permit leaked per fault shows within
+        # the fault bound
+        d.workqueue_semaphore = asyncio.Semaphore(shape['permits'])
 
     class AsyncioShim:
         TimeoutError = asyncio.TimeoutError
@@ -219,6 +238,10 @@ def scenario(shape):
                 exp = len(block_bytes[k])
         except dmod.DaemonError as e:
             err = e
+        except Deadlock:
+            eng.prove(False, 'the call never returns although the daemon answers again (it waits for something nothing '
+                             'will ever release)', {'signature': 'deadlock', 'call': call})
+            return
         if call in ('rawtxs_strict', 'error'):
             eng.prove(err is not None, 'a genuine daemon error reply was not raised', {'signature': 'error-swallowed'})
         else:
@@ -278,7 +301,10 @@ def shapes(tier):
                 if k >= 4 and call not in ('height', 'hashes', 'block'):
                     continue
                 out.append({'k': k, 'urls': urls, 'call': call})
+    # the work-queue semaphore scaled from 10 permits to 2: k = 3 faults then an answer must still return
+    out += [{'k': 3, 'urls': 1, 'call': 'height', 'permits': 2}, {'k': 3, 'urls': 2, 'call': 'rawtxs', 'permits': 2}]
     if tier == 'thorough':
+        out += [{'k': 4, 'urls': 3, 'call': 'hashes', 'permits': 3}, {'k': 2, 'urls': 1, 'call': 'mempool', 'permits': 1}]
         out += [{'k': 5, 'urls': 2, 'call': 'height'}]
     return out
 
@@ -290,7 +316,9 @@ KERNELS = [
                     '_get_to_file', 'failover', 'current_url', 'height', 'block_hex_hashes', 'getrawtransactions',
                     'mempool_hashes', 'get_block'],
            bounds='k <= 3 (quick) / 4 (5 for height with two URLs) consecutive faults, each any of the 8 handled kinds '
-                  '(solver-enumerated); 1..3 URLs; init_retry, max_retry any reals with 0 < init <= max <= 16 init',
+                  '(solver-enumerated); 1..3 URLs; init_retry, max_retry any reals with 0 < init <= max <= 16 init; two shapes '
+                  '(thorough: four) with the work-queue semaphore scaled from 10 permits down to 1..3; a call that can '
+                  'never be woken (all event sources are stubs) is a violation',
            outside='longer fault sequences; max_retry > 16 init; a daemon that answers batches out of order',
            assumptions=['aiohttp session, asyncio.sleep, worker thread and the block file are stubs',
                         'real-number arithmetic stands for binary floating point (doubling, min and max are exact '
